@@ -256,6 +256,11 @@ type RangeError struct {
 	operation *Operation
 }
 
+// NewRangeError returns a range error with the provided details
+func NewRangeError(details string) *RangeError {
+	return &RangeError{details: details}
+}
+
 // Error implements the error interface
 func (e *RangeError) Error() string {
 	msg := rangeError
